@@ -190,11 +190,27 @@ def r19_2(rep: Report) -> None:
     construct = f'{DT}::from_isodatetime'
     tainted = _float_derived(fn)
     sites = 0
+    cands: list[tuple[ast.AST, ast.AST]] = []
     for n in ast.walk(fn):
+        # (a, microsecond) = (x, y): element-wise
+        if isinstance(n, ast.Assign) and len(n.targets) == 1 and isinstance(n.targets[0], ast.Tuple) \
+                and isinstance(n.value, ast.Tuple) and len(n.value.elts) == len(n.targets[0].elts):
+            for t_, v_ in zip(n.targets[0].elts, n.value.elts):
+                if isinstance(t_, ast.Name) and 'micro' in t_.id.lower():
+                    cands.append((n, v_))
+        # datetime.datetime(y, m, d, H, M, S, <microsecond>, ...)
+        if isinstance(n, ast.Call) and (call_name(n) or '').endswith('datetime') and len(n.args) >= 7:
+            cands.append((n, n.args[6]))
+    for n in list(ast.walk(fn)) + cands:
         # the value stored as microsecond(s)
         is_us = False
         val = None
-        if isinstance(n, ast.Assign) and len(n.targets) == 1:
+        if isinstance(n, tuple):
+            n, val = n
+            is_us = True
+            if isinstance(val, ast.Name):
+                continue            # its definition is a site of its own
+        elif isinstance(n, ast.Assign) and len(n.targets) == 1:
             t = n.targets[0]
             if isinstance(t, ast.Subscript) and isinstance(t.slice, ast.Constant) \
                     and 'microsecond' in str(t.slice.value):
